@@ -2,7 +2,7 @@
 //! (`SwapMarkets::revertible_swap`), market seeding through the revertible market, and the
 //! balance validation, over in-memory market accounts.
 use anchor_lang::prelude::*;
-use gmsol_model::{Bank, BaseMarketMut, Pool as _, SwapMarketMut};
+use gmsol_model::{Bank, BaseMarketMut, PerpMarketMut, Pool as _, SwapMarketMut};
 
 use crate::{
     events::EventEmitter,
@@ -50,6 +50,30 @@ pub fn seed_market<'info>(
     market
         .record_transferred_in_by_token(&meta.short_token_mint, &balance.1)
         .map_err(ModelError::from)?;
+    market.commit();
+    Ok(())
+}
+
+/// Seed the claimable-fee pool and the two collateral-sum pools (amounts only, no balances).
+pub fn seed_fee_and_collateral<'info>(
+    loader: &AccountLoader<'info, Market>,
+    event_authority: &AccountInfo<'info>,
+    claimable_fee: (u128, u128),
+    collateral_for_long: (u128, u128),
+    collateral_for_short: (u128, u128),
+) -> Result<()> {
+    let emitter = EventEmitter::new(event_authority, 255);
+    let mut market = RevertibleMarket::new(loader, None, emitter)?;
+    let as_signed = |v: u128| i128::try_from(v).map_err(|_| error!(crate::CoreError::InvalidArgument));
+    let pool = market.claimable_fee_pool_mut().map_err(ModelError::from)?;
+    pool.apply_delta_to_long_amount(&as_signed(claimable_fee.0)?).map_err(ModelError::from)?;
+    pool.apply_delta_to_short_amount(&as_signed(claimable_fee.1)?).map_err(ModelError::from)?;
+    let pool = market.collateral_sum_pool_mut(true).map_err(ModelError::from)?;
+    pool.apply_delta_to_long_amount(&as_signed(collateral_for_long.0)?).map_err(ModelError::from)?;
+    pool.apply_delta_to_short_amount(&as_signed(collateral_for_long.1)?).map_err(ModelError::from)?;
+    let pool = market.collateral_sum_pool_mut(false).map_err(ModelError::from)?;
+    pool.apply_delta_to_long_amount(&as_signed(collateral_for_short.0)?).map_err(ModelError::from)?;
+    pool.apply_delta_to_short_amount(&as_signed(collateral_for_short.1)?).map_err(ModelError::from)?;
     market.commit();
     Ok(())
 }
